@@ -258,8 +258,16 @@ func c14GenDecor(t *rapid.T, label string) *c14Decor {
 			"\t\t/home/alice/msg.go:1 +0x1 fp=0xc000000001 sp=0xc000000000 pc=0x"+fmt.Sprintf("%x", 0x400000+rapid.IntRange(0, 0xffff).Draw(t, label+"msgPC")),
 			"\t")
 	}
+	if rapid.IntRange(0, 19).Draw(t, label+"hugeMessage") == 0 {
+		// a panic value printed on one very long line (longer than the usual I/O buffer sizes)
+		d.preamble = append(d.preamble, "panic: "+strings.Repeat("big value ", rapid.SampledFrom([]int{410, 6553, 6554, 7000, 30000}).Draw(t, label+"hugeWords")))
+	}
 	argStyle := rapid.IntRange(0, 3).Draw(t, label+"argStyle")
+	hugeArgs := rapid.IntRange(0, 29).Draw(t, label+"hugeArgs") == 0
 	d.args = func(i int) string {
+		if hugeArgs && i == 2 {
+			return "(" + strings.Repeat("0x1, ", 14000) + "...)"
+		}
 		switch argStyle {
 		case 0:
 			return "()"
